@@ -844,3 +844,74 @@ class Knap:
         else:
             self.m.solve(rs[solver], display=False, **kw)
         return float(self.m.get())
+
+
+# ------------------------------------------------------------------------------------------------------------
+# systematic operator table: (operand class of A) op (operand class of B), both operand orders, handed over through
+# st() and through every objective method of A's front end
+OP_CLASSES = ['x', 'x[1]', '2*x', '2*x+1', 'z', 'z[1]', '2*z[1]', '2*z+1', 'rule', 'x*z']
+OP_OPS = ['add', 'sub', 'mul', 'matmul']
+OP_HANDOVER = {'ro': ['st', 'min', 'max', 'minmax', 'maxmin'], 'dro': ['st', 'min', 'max', 'minsup', 'maxinf']}
+
+
+def op_operand(Mo, cls):
+    if cls == 'x':
+        return Mo.x
+    if cls == 'x[1]':
+        return Mo.x[1]
+    if cls == '2*x':
+        return 2 * Mo.x
+    if cls == '2*x+1':
+        return 2 * Mo.x + 1
+    if cls == 'z':
+        return Mo.z
+    if cls == 'z[1]':
+        return Mo.z[1]
+    if cls == '2*z[1]':
+        return 2 * Mo.z[1]
+    if cls == '2*z+1':
+        return 2 * Mo.z + 1
+    if cls == 'rule':
+        if Mo.fe == 'ro':
+            if Mo.ldr.depend is None:
+                Mo.ldr.adapt(Mo.z)
+            return Mo.ldr
+        if Mo.v.rand_adapt is None:
+            Mo.v.adapt(Mo.z)
+        return Mo.v
+    if cls == 'x*z':
+        return Mo.x * Mo.z
+    raise ValueError(cls)
+
+
+def run_op(fa, fb, ca, cb, op, order, ho):
+    """(accepted, exception name, A)"""
+    A, Bm = M(fa), M(fb)
+    try:
+        a, b = op_operand(A, ca), op_operand(Bm, cb)
+        l, r = (a, b) if order == 'AB' else (b, a)
+        if op == 'add':
+            e = l + r
+        elif op == 'sub':
+            e = l - r
+        elif op == 'mul':
+            e = l * r
+        else:
+            e = l @ r
+        if e is None or e is NotImplemented:
+            return False, 'returns-None', A
+        if ho == 'st':
+            _st_le1(A, e)
+        else:
+            e = e.sum() if getattr(e, 'size', 1) > 1 and hasattr(e, 'sum') else e
+            if ho in ('min', 'max'):
+                getattr(A.m, ho)(e)
+            elif ho in ('minmax', 'maxmin'):
+                getattr(A.m, ho)(e, A.zset())
+            else:
+                getattr(A.m, ho)(_E()(e) if hasattr(e, 'E') else e, A.fset)
+    except RecursionError:
+        return False, 'RecursionError', A
+    except Exception as ex:  # noqa
+        return False, type(ex).__name__, A
+    return True, None, A
